@@ -48,6 +48,7 @@ type mInst struct {
 	handed   bool // handed out a reference it does not own to a holder that does not keep it alive
 	mem      *mMem
 	memFrom  int  // definer of the imported memory, -1 own
+	ghost    bool // instantiation failed in the start function: no handle, no name, but its element segments were applied and imported tables list it
 	elemDrop bool // the passive element segment was dropped
 	dataDrop bool
 }
@@ -203,6 +204,14 @@ func (m *model) addInst(rt, spec, cm int, name string) {
 		if sp.ElemImp && sp.ImpFrom != "" {
 			in.tab0.slots[sp.Elem] = m.importedRefOwner(h)
 		}
+	}
+	if sp.StartTrap {
+		in.ghost, in.closed, in.dropped, in.closedAt, in.dropAt, m.dirty = true, true, true, m.n, m.n, true
+		m.labels["failed-instantiation-left-functions-in-imported-table"] = true
+		if cm < 0 {
+			m.codeGone[[2]int{m.engineOf(rt), spec}] = true // InstantiateWithConfig closes its code on failure
+		}
+		return
 	}
 	if name != "" {
 		m.names[rt][name] = h
@@ -692,6 +701,10 @@ func genSpecs(t *rapid.T) []modSpec {
 		if rapid.IntRange(0, 2).Draw(t, "has_elem1") == 0 || (s.Tab1From != "" && rapid.Bool().Draw(t, "has_elem1_imported")) {
 			s.Elem1 = 1 + rapid.IntRange(0, tableSlots-1).Draw(t, "elem1")
 		}
+		if (s.TabFrom != "" && s.Elem >= 0) || (s.Tab1From != "" && s.Elem1 > 0) {
+			// instantiation fails in the start function after the functions were put in the imported table
+			s.StartTrap = rapid.IntRange(0, 3).Draw(t, "start_trap") == 0
+		}
 		if s.GlobFrom == "" {
 			s.GlobInit = rapid.SampledFrom([]int{0, 0, 1, 2}).Draw(t, "glob_init")
 			if s.GlobInit == 2 && s.ImpFrom == "" {
@@ -844,9 +857,12 @@ func genStep(t *rapid.T, m *model, excluded *int) (s step, ok bool) {
 				continue
 			}
 			for _, nm := range instNames {
+				if nm != "" && m.specs[c.spec].StartTrap {
+					continue
+				}
 				if nm == "" || !m.hasName(c.rt, nm) {
 					if m.codeGone[[2]int{m.engineOf(c.rt), c.spec}] {
-						if nm == "" {
+						if nm == "" && !m.specs[c.spec].StartTrap {
 							goneOpts = append(goneOpts, instOpt{h, c.rt, c.spec, nm})
 						}
 					} else {
@@ -861,6 +877,9 @@ func genStep(t *rapid.T, m *model, excluded *int) (s step, ok bool) {
 					continue
 				}
 				for _, nm := range instNames {
+					if nm != "" && m.specs[sp].StartTrap {
+						continue
+					}
 					if nm == "" || !m.hasName(rt, nm) {
 						bytesOpts = append(bytesOpts, instOpt{-1, rt, sp, nm})
 					}
@@ -875,6 +894,9 @@ func genStep(t *rapid.T, m *model, excluded *int) (s step, ok bool) {
 		}
 		sp := m.specs[o.spec]
 		if sp.ImpFrom != "" || sp.TabFrom != "" || sp.GlobFrom != "" || sp.MemFrom != "" || sp.Tab1From != "" {
+			w *= 3
+		}
+		if sp.StartTrap {
 			w *= 3
 		}
 		// an importer of one table of an owner whose OTHER exported table already has an importer
